@@ -34,6 +34,9 @@ type replayFile struct {
 	Runs []replayRun `json:"runs"`
 }
 
+// nativeRace makes the next native run use the Go race detector.
+var nativeRace bool
+
 var resultRe = regexp.MustCompile(`(?m)^VERIF-RESULT (-?\d+) (.*)$`)
 
 // runNative runs the given runs (all harnesses in pkgDir) in one `go test` invocation.
@@ -127,8 +130,13 @@ func runNativeTest(pkgDirs []string, pkgDir string, runPattern, envName string, 
 
 	ctx, cancel := context.WithTimeout(context.Background(), timeout+90*time.Second)
 	defer cancel()
-	cmd := exec.CommandContext(ctx, "go", "test", "-v", "-vet=off", "-count=1", "-overlay", ovPath, "-run", runPattern,
-		"-timeout", fmt.Sprintf("%ds", int(timeout.Seconds())), "./"+pkgDir)
+	goArgs := []string{"test", "-v", "-vet=off", "-count=1", "-overlay", ovPath, "-run", runPattern,
+		"-timeout", fmt.Sprintf("%ds", int(timeout.Seconds()))}
+	if nativeRace {
+		goArgs = append(goArgs, "-race")
+	}
+	goArgs = append(goArgs, "./"+pkgDir)
+	cmd := exec.CommandContext(ctx, "go", goArgs...)
 	cmd.Dir = repoRoot
 	cmd.Env = append(os.Environ(), envName+"="+rpath, "GOFLAGS=-mod=mod", "GOPROXY=off", "GOSUMDB=off", "GOTOOLCHAIN=local")
 	out, _ := cmd.CombinedOutput()
@@ -179,6 +187,8 @@ func findingRun(f *Finding, known map[string]KnownFinding) replayRun {
 		r.Expect = "timeout"
 	case "leak":
 		r.Expect = "goroutine-leak"
+	case "race":
+		r.Expect = "race"
 	}
 	return r
 }
@@ -204,7 +214,7 @@ func replayFindings(prog *Program, cfg *CheckCfg, pkgDir string, fl []*Finding, 
 	var batch []*Finding
 	var single []*Finding
 	for _, f := range fl {
-		if f.Kind == "nontermination" || f.Kind == "deadlock" {
+		if f.Kind == "nontermination" || f.Kind == "deadlock" || f.Kind == "race" {
 			single = append(single, f)
 		} else {
 			batch = append(batch, f)
@@ -246,11 +256,25 @@ func replayFindings(prog *Program, cfg *CheckCfg, pkgDir string, fl []*Finding, 
 			run.Repeat = 300
 			run.Expect = "any-failure (schedule-dependent): " + run.Expect
 		}
+		nativeRace = f.Kind == "race"
 		res, text, err := runNative(cfg.Packages, pkgDir, []replayRun{run}, 60*time.Second)
+		nativeRace = false
 		if err != nil {
 			return agreed, err
 		}
 		got, ok := res[0]
+		if f.Kind == "race" {
+			// the Go race detector (or the runtime's concurrent-map check) must fire while the harness is repeated
+			if strings.Contains(text, "WARNING: DATA RACE") || strings.Contains(text, "concurrent map") {
+				f.Replayed = "reproduced"
+				f.ReplayOut = "go test -race: data race reported"
+				agreed++
+			} else {
+				f.Replayed = "not-reproduced"
+				f.ReplayOut = "go test -race reported no race in " + fmt.Sprint(run.Repeat) + " repetitions"
+			}
+			continue
+		}
 		timedOut := !ok && (strings.Contains(text, "test timed out") || strings.Contains(text, "all goroutines are asleep"))
 		if !ok {
 			got = "no result: " + tail(strings.TrimSpace(text), 300)
